@@ -499,6 +499,35 @@ def validate_traces(module: str, cfg: str, traces: list[list[dict[str, Any]]], *
     return out, res
 
 
+def validate_traces_parallel(module: str, cfg: str, traces: list[list[dict[str, Any]]], *, nproc: int = 8,
+                             timeout: float = 1800) -> tuple[list[TraceVerdict], TlcResult]:
+    """validate_traces over `nproc` TLC processes (each takes a contiguous slice, balanced by number of events)."""
+    if len(traces) < 2 * nproc:
+        return validate_traces(module, cfg, traces, timeout=timeout)
+    from concurrent.futures import ThreadPoolExecutor
+    total = sum(len(t) for t in traces)
+    bounds, acc, start = [], 0, 0
+    for k, t in enumerate(traces):
+        acc += len(t)
+        if acc >= total / nproc and len(bounds) < nproc - 1:
+            bounds.append((start, k + 1))
+            start, acc = k + 1, 0
+    bounds.append((start, len(traces)))
+    bounds = [b for b in bounds if b[1] > b[0]]
+    t0 = time.time()
+    with ThreadPoolExecutor(len(bounds)) as ex:
+        parts = list(ex.map(lambda b: validate_traces(module, cfg, traces[b[0]:b[1]], timeout=timeout,
+                                                      extra_env={"JAVA_TOOL_OPTIONS": "-Xmx5g"}), bounds))
+    out: list[TraceVerdict] = []
+    for (lo, _hi), (vs, _r) in zip(bounds, parts):
+        for v in vs:
+            v.tid += lo
+            out.append(v)
+    res = parts[0][1]
+    res.wall_s = time.time() - t0
+    return out, res
+
+
 def _printt_lines(out: str) -> list[str]:
     """PrintT output may span several lines; glue lines until brackets balance."""
     lines, buf, bal = [], "", 0
